@@ -293,3 +293,64 @@ Proof.
   destruct (nearest_even_spec (Nk num k) (Dk den k) HD ltac:(lia)) as (_ & _ & _ & H4).
   rewrite H4 by (rewrite Hc; apply Z.mod_mul; lia). rewrite Hc, Z.div_mul by lia. reflexivity.
 Qed.
+
+(* ... and a finite one is never reported as overflow *)
+Theorem round_accepts_dyadic num den M E :
+  0 < num -> 0 < den -> 0 < M < two53 -> -1074 <= E -> is_dyadic num den M E ->
+  M * Pk E < 2 ^ 1024 * Mk E ->                      (* M * 2^E < 2^1024 *)
+  exists m e, round_pos_rational num den = Some (m, e).
+Proof.
+  intros Hn Hd HM HE Hdy Hfin.
+  destruct (round_pos_rational num den) as [[m e]|] eqn:Er; [exists m, e; reflexivity|exfalso].
+  rewrite round_eq in Er. unfold round2 in Er. destruct (num =? 0) eqn:E0; [discriminate|]. cbv zeta in Er.
+  set (k := rk num den) in *. set (q' := nearest_even (Nk num k) (Dk den k)) in *.
+  destruct ((971 <? - k) || ((- k =? 971) && (two53 <=? q'))) eqn:Eov; [|discriminate]. clear Er.
+  (* q' is the exact quotient *)
+  assert (Hex : q' * Dk den k = Nk num k).
+  { (* the divisibility argument of round_exact_dyadic *)
+    pose proof (Dk_pos num den Hn Hd k) as HD. pose proof (Nk_pos num Hn k) as HN.
+    pose proof (Mk_pos E) as HME.
+    assert (Hdiv : exists c, Nk num k = c * Dk den k).
+    { destruct (Z_le_gt_dec 0 (E + k)) as [Hs|Hs].
+      - exists (M * 2 ^ (E + k)). unfold Nk, Dk. apply Z.mul_reg_r with (Mk E); [lia|].
+        replace (num * Pk k * Mk E) with ((num * Mk E) * Pk k) by ring. rewrite Hdy.
+        replace (M * Pk E * den * Pk k) with (M * den * (Pk E * Pk k)) by ring. rewrite (PP_nonneg E k Hs). ring.
+      - exfalso. assert (Hk : k <> 1074) by lia.
+        pose proof (q_range_rk num den Hn Hd) as Hq. cbv zeta in Hq. fold k in Hq. destruct Hq as [Hq|[Hq _]]; [|contradiction].
+        assert (Hlo : two52 * Dk den k <= Nk num k) by (apply mul_le_of_div; [exact HD|lia]).
+        assert (Hsc : Nk num k * 2 ^ (- E - k) = M * Dk den k).
+        { unfold Nk, Dk. apply Z.mul_reg_r with (Mk E); [lia|].
+          replace (num * Pk k * 2 ^ (- E - k) * Mk E) with ((num * Mk E) * Pk k * 2 ^ (- E - k)) by ring. rewrite Hdy.
+          replace (M * Pk E * den * Pk k * 2 ^ (- E - k)) with (M * den * (Pk E * Pk k * 2 ^ (- E - k))) by ring.
+          rewrite (PP_neg E k ltac:(lia)). ring. }
+        assert (Hp : 2 <= 2 ^ (- E - k)) by (change 2 with (2 ^ 1) at 1; apply Z.pow_le_mono_r; lia).
+        assert (H1 : two52 * Dk den k * 2 <= Nk num k * 2 ^ (- E - k)).
+        { apply Z.mul_le_mono_nonneg; try lia. unfold two52. lia. }
+        rewrite Hsc in H1. assert (H2 : M * Dk den k < two53 * Dk den k) by (apply Z.mul_lt_mono_pos_r; lia).
+        rewrite two53_two52 in H2. lia. }
+    destruct Hdiv as [c Hc].
+    destruct (nearest_even_spec (Nk num k) (Dk den k) HD ltac:(lia)) as (_ & _ & _ & H4).
+    unfold q'. rewrite H4 by (rewrite Hc; apply Z.mod_mul; lia). rewrite Hc, Z.div_mul by lia. reflexivity. }
+  (* in the overflow cases k < 0 and the quotient is normalised *)
+  assert (Hkneg : k <= -971).
+  { apply orb_prop in Eov. destruct Eov as [Eov|Eov]; [apply Z.ltb_lt in Eov; lia|].
+    apply andb_prop in Eov. destruct Eov as [Eov _]. apply Z.eqb_eq in Eov. lia. }
+  pose proof (q_range_rk num den Hn Hd) as Hq. cbv zeta in Hq. fold k in Hq. destruct Hq as [Hq|[Hq _]]; [|lia].
+  pose proof (Dk_pos num den Hn Hd k) as HD. pose proof (Mk_pos E) as HME. pose proof (Pk_pos E) as HPE.
+  assert (Hq52 : two52 <= q').
+  { destruct (nearest_even_spec (Nk num k) (Dk den k) HD ltac:(pose proof (Nk_pos num Hn k); lia)) as (_ & _ & H3 & _). unfold q'. lia. }
+  (* q' * 2^(-k) * Mk E = M * Pk E *)
+  assert (Hval : q' * 2 ^ (- k) * Mk E = M * Pk E).
+  { unfold Nk, Dk, Pk, Mk in Hex. destruct (0 <=? k) eqn:Ek; [apply Z.leb_le in Ek; lia|]. rewrite Z.mul_1_r in Hex.
+    apply Z.mul_reg_r with den; [lia|]. replace (q' * 2 ^ (- k) * Mk E * den) with (q' * (den * 2 ^ (- k)) * Mk E) by ring.
+    rewrite Hex. unfold is_dyadic in Hdy. rewrite Hdy. ring. }
+  assert (Hlt : q' * 2 ^ (- k) < 2 ^ 1024).
+  { apply Z.mul_lt_mono_pos_r with (Mk E); [exact HME|]. rewrite Hval. exact Hfin. }
+  apply orb_prop in Eov. destruct Eov as [Eov|Eov].
+  - apply Z.ltb_lt in Eov. assert (2 ^ 972 <= 2 ^ (- k)) by (apply Z.pow_le_mono_r; lia).
+    assert (two52 * 2 ^ 972 <= q' * 2 ^ (- k)) by (apply Z.mul_le_mono_nonneg; [unfold two52; lia|exact Hq52|apply Z.pow_nonneg; lia|exact H]).
+    change (two52 * 2 ^ 972) with (2 ^ 1024) in H0. lia.
+  - apply andb_prop in Eov. destruct Eov as [Ek Eq]. apply Z.eqb_eq in Ek. apply Z.leb_le in Eq. rewrite Ek in Hlt.
+    assert (two53 * 2 ^ 971 <= q' * 2 ^ 971) by (apply Z.mul_le_mono_nonneg_r; [apply Z.pow_nonneg|]; lia).
+    change (two53 * 2 ^ 971) with (2 ^ 1024) in H. lia.
+Qed.
